@@ -317,8 +317,18 @@ pub fn run(o: &Opts) -> i32 {
             let qs = sx::fresh_level(t(now), DOMAIN_PREVIOUS_TGT_LEVEL).await;
             tr.emit(&json!({"a":"reset","h":hi,"hseed":hs,"all":all,"res":"ok","level":DOMAIN_PREVIOUS_TGT_LEVEL}));
             let user = populate(&qs, &mut rng, &mut now).await;
-            let (removed, cands, refused) = remove_some(&qs, &mut rng, &mut now, *all).await;
+            let (mut removed, cands, refused) = remove_some(&qs, &mut rng, &mut now, *all).await;
             let pre = dump(&qs).await;
+            // RemoveSome speaks about the stored state the upgrade starts from: a value that a later write of the
+            // same history made a plugin derive again (class `memberof` of a built-in account, re-added when one of
+            // its groups is recomputed) is not missing before the upgrade and so is not a perturbation
+            for (u, m) in removed.iter_mut() {
+                for (a, gone) in m.iter_mut() {
+                    gone.retain(|v| !pre.get(u).and_then(|(_, attrs)| attrs.get(a)).map(|vs| vs.contains(v)).unwrap_or(false));
+                }
+                m.retain(|_, gone| !gone.is_empty());
+            }
+            removed.retain(|_, m| !m.is_empty());
             // only user-set attributes that are really stored before the upgrade are claimed
             let user_j: Map<String, J> = user.iter().map(|(u, attrs)| {
                 let have: Vec<&String> = attrs.iter().filter(|a| pre.get(u).map(|(_, m)| m.contains_key(*a)).unwrap_or(false)).collect();
